@@ -523,6 +523,31 @@ func runCompressedUnfinished(c caseT) {
 	}
 }
 
+// runTopBit: a data frame whose 64-bit length field has the most significant bit set, followed by
+// c.Size bytes. It must be refused at its header - nothing of what follows may be buffered beyond
+// the limit.
+func runTopBit(c caseT) {
+	masked := !c.Client
+	f := wsref.Frame{Fin: true, Opcode: byte(c.Type), Masked: masked, Key: [4]byte{5, 5, 5, 5}, LenBits: 64, DeclLen: 1<<63 | uint64(c.Size), DeclOverride: true}
+	wire := wsref.AppendFrame(nil, &f)
+	wire = append(wire, content(c, c.Size)...)
+	o := drive(c, wire)
+	how := "len64-top-bit"
+	ok := true
+	if !o.e.Failed() {
+		violate("c15:"+how+":not-refused", fmt.Sprintf("a frame announcing 2^63+%d bytes was fully fed (%d bytes after the header); nbio neither failed nor delivered\n%s", c.Size, c.Size, o.describe()), c, o.wire, o.cuts)
+		ok = false
+	}
+	if len(o.msgs) > 0 {
+		violate("c15:"+how+":delivered", o.describe(), c, o.wire, o.cuts)
+		ok = false
+	}
+	ok = o.common(c, how) && ok
+	if ok {
+		run.Nontrivial(fmt.Sprintf("topbit/%d", c.Index))
+	}
+}
+
 func runControlSend(c caseT) {
 	tr := newTracker(pool(c.Pool))
 	e := nbdrive.New(nbdrive.Config{Client: c.Client, MsgLimit: c.L, Allocator: tr})
@@ -691,6 +716,8 @@ func runCase(c caseT) {
 		runPlain(c)
 	case "compressed-unfinished":
 		runCompressedUnfinished(c)
+	case "len64-top-bit":
+		runTopBit(c)
 	case "compressed":
 		runCompressed(c)
 	case "control-send":
@@ -802,6 +829,17 @@ func main() {
 							step(c2, false)
 						}
 					}
+				}
+				// ---- a length with the top bit set, followed by 8-64 x the limit
+				if L >= 16 {
+					rng := run.Rand("c15-topbit", idx+1)
+					size := (8 + rng.Intn(57)) * L
+					if size > absCap {
+						size = absCap
+					}
+					c := caseT{Kind: "len64-top-bit", L: L, Pool: pl, Client: rng.Intn(2) == 0, Type: 1 + rng.Intn(2), Size: size, Content: nbdrive.PayZero}
+					c.Seg = segFor(rng, size)
+					step(c, false)
 				}
 				// ---- a compressed message that never ends: fragments within the limit, 3-10 x the limit in sum
 				if L >= 16 {
